@@ -110,6 +110,11 @@ class Codec(pipeline.Stream):
             cases.append(("enc", chr(a) + chr(b)))
         for _ in range(150 if tier == "quick" else 3000):
             cases.append(("enc", rand_text(rng, 12, surrogates=rng.random() < 0.15)))
+        # pass-through branches: to_bytes of bytes, from_bytes of str
+        for b in [b"", b"abc", "é".encode(), b"\xff\xc3"]:
+            cases.append(("encb", b))
+        for t in ["", "abc", "é€\U0001f600", "\ud800"]:
+            cases.append(("decs", t))
         # decoding: valid encodings
         for c in BOUNDARY + NEAR:
             cases.append(("dec", chr(c).encode("utf-8")))
@@ -142,7 +147,7 @@ class Codec(pipeline.Stream):
     def run_impl(self, case):
         op, x = case
         try:
-            return ("ok", self.U.to_bytes(x) if op == "enc" else self.U.from_bytes(x))
+            return ("ok", self.U.to_bytes(x) if op in ("enc", "encb") else self.U.from_bytes(x))
         except Exception as ex:   # noqa
             return ("raise", exc_name(ex))
 
@@ -161,15 +166,17 @@ class Codec(pipeline.Stream):
 
     def encode(self, case, obs):
         op, x = case
-        if op == "enc":
+        if obs[0] == "ok" and not isinstance(obs[1], bytes if op in ("enc", "encb") else str):
+            return "(CEnc [0]%N (Ok [1]%N))"          # wrong result type: a disagreement
+        if op in ("enc", "encb"):
             o = "(Ok %s)" % S.g_bytes(obs[1]) if obs[0] == "ok" else "(Raise %s)" % g_exn_name(obs[1])
-            return "(CEnc %s %s)" % (S.g_text(x), o)
+            return "(CEnc %s %s)" % (S.g_text(x), o) if op == "enc" else "(CEncB %s %s)" % (S.g_bytes(x), o)
         o = "(Ok %s)" % S.g_text(obs[1]) if obs[0] == "ok" else "(Raise %s)" % g_exn_name(obs[1])
-        return "(CDec %s %s)" % (S.g_bytes(x), o)
+        return "(CDec %s %s)" % (S.g_bytes(x), o) if op == "dec" else "(CDecS %s %s)" % (S.g_text(x), o)
 
     def nontrivial(self, case, obs):
         op, x = case
-        return any(c > 127 for c in (x if op == "dec" else map(ord, x)))
+        return any(c > 127 for c in (x if op in ("dec", "encb") else map(ord, x)))
 
     def kind(self, case, obs):
         return "%s -> %s" % (case[0], "ok" if obs[0] == "ok" else obs[1])
@@ -180,10 +187,10 @@ class Codec(pipeline.Stream):
 
     def to_replay(self, case):
         op, x = case
-        return {"op": op, "x": [ord(c) for c in x] if op == "enc" else x.hex()}
+        return {"op": op, "x": [ord(c) for c in x] if op in ("enc", "decs") else x.hex()}
 
     def from_replay(self, j):
-        return (j["op"], "".join(chr(c) for c in j["x"]) if j["op"] == "enc" else bytes.fromhex(j["x"]))
+        return (j["op"], "".join(chr(c) for c in j["x"]) if j["op"] in ("enc", "decs") else bytes.fromhex(j["x"]))
 
     def shrink(self, case):
         op, x = case
